@@ -66,7 +66,27 @@ EXPLANATION = (
     "characters that YAML escapes, folded prose, thousands of small keys) go through writer, reader, model and monitors on every "
     "tier; C33_size_agnostic pins that the archive layer has no length test, bounded read or size constant. Values the "
     "reader hands back are canonicalised totally (non-str keys, dates, bytes), and a scenario the harness cannot finish is "
-    "reported with its input instead of ending the run."
+    "reported with its input instead of ending the run. "
+    "EXTENSION. Theorems beyond the property's domain and beyond written archives: the round trip needs only distinct dot-free names "
+    "(C33_roundtrip_dotfree) and needs both (C33_domain_tight: `x` next to `x.secret`, `app` twice -- replayed on the real code); for "
+    "EVERY name the secret / generation members are classified as what they are and the resource member is never ignored "
+    "(C33_classification_any_name), hence a different password / none is refused for every backup whatsoever that holds a secret "
+    "(C33_wrong_password_any_backup, C33_no_password_any_backup) and for ANY archive, hand-made or not, that holds a member "
+    "`<name>.secret.enc` sealed under another password (C33_any_archive_wrong_password_fails); on every archive it accepts the reader "
+    "refines a specification that never runs it -- entries = resource names in order of first appearance, each with the LAST resource / "
+    "secret (either form) / generation member of its name, names distinct (C33_reader_refines_spec, invariant of the reader's fold by "
+    "induction over the members) -- and its password matters for encrypted members only (C33_reader_password_use); the writer emits "
+    "exactly 1 + deployments + secrets + generations members (C33_member_count) and seals the i-th encrypted member with the i-th "
+    "os.urandom draw, each draw once (C33_fresh_draws). Cleaning (`clean_crd_metadata` / `clean_secret_metadata` / `_clean_metadata`, "
+    "model ArchiveClean over the regenerated allow-lists, prefixes and keys; statement shape pinned by C33_clean_source_shape): keeps "
+    "metadata.name -- the writer names members after the cleaned resource, the service keys secrets and generations by the raw one "
+    "(C33_clean_keeps_name), is idempotent (C33_clean_idempotent), removes exactly status / non-allow-listed metadata / system "
+    "annotations / an emptied annotations key (C33_clean_exact); C33_service_roundtrip composes cleaning, the service's keying (shape "
+    "re-read from manage_api/backup_service.py), writer and reader: every cluster state with distinct dot-free names restores under the "
+    "cluster names with the cleaned resources, the paired secrets and the cluster generations. Tie: driver op `clean` against the real "
+    "cleaners; the REAL BackupService (backup, restore, restore under another password) on an in-memory cluster; hand-made archives "
+    "with links / devices / AREGTYPE / CONTTYPE members and repeated members, checked against an independent last-member-wins reading; "
+    "the recorded os.urandom draws against the stored encrypted members."
 )
 LEVEL_TEXT = "proof (all backups, passwords, codecs and AEADs satisfying the stated laws) + correspondence + implementation-side monitors; encryption half partial (stand-in cipher)"
 ASSUMPTIONS = [
@@ -89,12 +109,25 @@ ASSUMPTIONS = [
     "its acceptance of one trailing newline (`$`), which the model's validName rejects",
     "resources are JSON-like values as returned by the Kubernetes API (str keys; str/int/float/bool/None/list/dict); secret "
     "values are valid UTF-8 strings (k8s_client.get_secret_data decodes them)",
+    "cleaning is modelled for documents whose `metadata` (when present) is a mapping and whose `metadata.annotations` (when present) is "
+    "a mapping with str keys, as the Kubernetes API returns them; on anything else the Python code raises and the model says nothing. "
+    "Dict order is not modelled (yaml.dump sorts keys); in-place mutation is modelled as a function (the service reads name and "
+    "generation before it cleans: pinned by C33_clean_source_shape, exercised by the service runs)",
+    "the service path (C33_service_roundtrip, C33/service_roundtrip[...]) covers BackupService._perform_backup / _perform_restore with "
+    "k8s_client, settings and backup.storage replaced by in-memory stand-ins (kubernetes, pydantic-settings, botocore are absent): what the "
+    "real cluster / S3 do is not exercised; the service's two dicts are association lists in the model (names distinct)",
+    "C33_fresh_draws says which os.urandom draw seals which member; that os.urandom does not repeat itself is the operating system's "
+    "business (the monitor checks distinctness of the stored salt||nonce prefixes only under the hash-scripted urandom)",
 ]
 TRUSTED_EXTRA = [
     "pyshims/cryptography: STAND-IN for the absent `cryptography` package (AESGCM/PBKDF2HMAC/hashes/InvalidTag interface over "
     "hashlib+hmac; NOT AES-GCM) -- the cipher is trusted, not verified",
     "harness/gen/archive.py (AST extraction of suffixes, reader chain, password tests, framing constants, KDF parameters)",
     "tarfile, gzip, PyYAML, json of the running interpreter",
+    "harness/gen/archive_clean.py (AST extraction of the allow-lists, prefixes, the statements of _clean_metadata, the writer's name "
+    "expression, the order of reads in BackupService._perform_backup)",
+    "harness/c33_clean.py: in-memory stand-ins for llama_agents.control_plane.{k8s_client, settings, backup.storage} under which the real "
+    "manage_api/backup_service.py is imported",
 ]
 LEAN_TARGETS = ["WfProps.C33"]
 
